@@ -128,6 +128,7 @@ HARNESS(h_lemma_skip_step_empty)
 {
     BTDMP_INPUT(s);
     NONDET(u64, k);
+    NATIVE_ONLY(k %= 200000;)      /* native sampling only: keep the real frame loop short */
     ASSUME(s.transmit_enable != 0 && s.transmit_queue.len == 0 && k < (1ull << 40));
     Btdmp a = s, b = s;
     Btdmp_Skip(&a, k);
